@@ -188,8 +188,15 @@ def judge(ctx, label, divs, mon_module, mon_invariants, mon_properties, mon_cons
                               'conformance:%s:%s' % (label, d['signature']), replay=d)
             else:
                 ctx.divergence(d2)
+    hung = False
     for d in divs:
-        if not d['obs']:
+        if d['kind'] == 'hang' and not hung:
+            hung = True
+            ctx.violation('a call into the real code never returned while replaying %s (last action %s)'
+                          % (label, d['acts'][-1].get('name') if d['acts'] else '?'),
+                          'hang:%s:%s' % (label, d['signature']),
+                          replay={'acts': d['acts'], 'note': d['note']})
+        elif not d['obs']:
             d2 = {k: d[k] for k in ('signature', 'step', 'note')}
             d2['label'] = label
             ctx.divergence(d2)
